@@ -421,6 +421,17 @@ func (b *BlockWise[C]) handleReceivedMessage(w *responsewriter.ResponseWriter[C]
 			startSendingMessageBlock = block
 		}
 	case codes.POST, codes.PUT:
+		// A POST/PUT without a payload that asks for a later block of its response continues an exchange whose
+		// response is not (or no longer) kept - a kept one is served by continueSendingMessage. The request's
+		// body was handed to the application when the exchange began: the method must not be run again, on
+		// an empty body, to produce the block (a late or duplicated continuation request would do just that).
+		if size, errS := r.BodySize(); errS == nil && size == 0 && !r.HasOption(message.Block1) {
+			if block, errB := r.GetOptionUint32(message.Block2); errB == nil {
+				if _, num, _, errD := DecodeBlockOption(block); errD == nil && num > 0 {
+					return errors.New("the response asked for is not available any more")
+				}
+			}
+		}
 		maxSZX = fitSZX(r, message.Block1, maxSZX)
 		errP := b.processReceivedMessage(w, r, maxSZX, next, message.Block1, message.Size1)
 		if errP != nil {
